@@ -33,12 +33,13 @@ theorem not_live_of_mapping {s : St} {id : InodeId} {fh : Option FhId} {ino : In
 theorem forgetOne_keep (e : Env) (hk : e.useHostIno = false) (s : St) (i : Ino) (n : Nat) :
     (forgetOne e s i n).byId = s.byId ∧ (forgetOne e s i n).byHandle = s.byHandle
     ∧ (forgetOne e s i n).next = s.next
-    ∧ (∀ j d, mget (forgetOne e s i n).data j = some d → ∃ d', mget s.data j = some d') := by
+    ∧ (∀ j d, mget (forgetOne e s i n).data j = some d →
+        ∃ d', mget s.data j = some d' ∧ d'.id = d.id ∧ d'.fh = d.fh) := by
   unfold forgetOne
   split
-  · exact ⟨rfl, rfl, rfl, fun j d h => ⟨d, h⟩⟩
+  · exact ⟨rfl, rfl, rfl, fun j d h => ⟨d, h, rfl, rfl⟩⟩
   · split
-    · exact ⟨rfl, rfl, rfl, fun j d h => ⟨d, h⟩⟩
+    · exact ⟨rfl, rfl, rfl, fun j d h => ⟨d, h, rfl, rfl⟩⟩
     · rename_i d0 hd0
       simp only
       split
@@ -51,13 +52,13 @@ theorem forgetOne_keep (e : Env) (hk : e.useHostIno = false) (s : St) (i : Ino) 
         simp only [mget_mdel] at h
         split at h
         · cases h
-        · exact ⟨d, h⟩
+        · exact ⟨d, h, rfl, rfl⟩
       · refine ⟨rfl, rfl, rfl, ?_⟩
         intro j d h
         simp only [setRefs_data, mget_mput] at h
         split at h
-        · rename_i e1; subst e1; exact ⟨d0, hd0⟩
-        · exact ⟨d, h⟩
+        · rename_i e1; subst e1; cases h; exact ⟨d0, hd0, rfl, rfl⟩
+        · exact ⟨d, h, rfl, rfl⟩
 
 theorem Tr.fresh {e : Env} (hk : e.useHostIno = false) {b : Bool} {s s' : St} {sp sp' : Spec}
     (h : Tr e b s sp s' sp') (f : Fresh s) (hc : s.clobbered = false) :
@@ -128,7 +129,7 @@ theorem Tr.fresh {e : Env} (hk : e.useHostIno = false) {b : Bool} {s s' : St} {s
     refine ⟨⟨by rw [hn]; exact f.two, ?_, by rw [hb, hn]; exact f.byIdLt, by rw [hy, hn]; exact f.byHLt⟩,
       by rw [(forgetOne_ghost e s0 i n).1]; exact hc⟩
     intro j d h
-    obtain ⟨d', h'⟩ := hsub j d h
+    obtain ⟨d', h', _⟩ := hsub j d h
     rw [hn]; exact f.dataLt j d' h'
   | hnds _ => exact ⟨f, hc⟩
   | setRoot hd _ hc' _ hb hy hn =>
@@ -162,6 +163,7 @@ theorem Tr.fresh {e : Env} (hk : e.useHostIno = false) {b : Bool} {s s' : St} {s
   | trans _ _ ih1 ih2 =>
     obtain ⟨f1, c1⟩ := ih1 f hc
     exact ih2 f1 c1
+  | relax _ ih => exact ih f hc
 
 theorem fresh_fresh : Fresh St.fresh :=
   ⟨by simp [St.fresh, ROOT_ID], by intro i d h; simp [St.fresh] at h,
